@@ -23,7 +23,7 @@ Conventions
 -/
 import Mathlib.Data.Matrix.Mul
 import Mathlib.Algebra.Order.Ring.Defs
-import Mathlib.Algebra.Order.Field.Defs
+import Mathlib.Algebra.Order.Field.Basic
 import Mathlib.Algebra.Order.Ring.Abs
 
 namespace MiciVerif.Constrained
